@@ -39,6 +39,10 @@ class PublishRules(Rule):
                     L.violate("C05", "P1", "failed-without-cause:%s" % d.kind,
                               "publish rid=%d on %s failed (%s) in a %s dispatch that is neither a loss of that address nor a clean-session CONNACK"
                               % (rid, rq.addr, val[0] if val else "?", d.kind))
+                    if rq.qos == 2 and rq.tx:
+                        L.violate("C09", "Q3", "given-up:%s" % d.kind,
+                                  "QoS 2 exchange id %r was given up (%s) in a %s dispatch: neither PUBCOMP nor a discarded session ended it"
+                                  % (rq.msgId, val[0] if val else "?", d.kind))
                 continue
             if rq.qos == 1:
                 if rq.ack1 != d.seq:
@@ -247,6 +251,9 @@ class RetxRules(Rule):
             rq = op.req
             if op.type == "PUBLISH" and rq.qos and op.pkt.get("dup"):
                 L.violate("C08", "R3", "first-PUBLISH-dup", "first transmission of PUBLISH id %r carries DUP" % rq.msgId)
+                if rq.ci != op.ci:
+                    L.violate("C12", "M3", "held-back-released-with-DUP",
+                              "publish rid=%d, only held back by the earlier connection, is first transmitted with DUP=1" % rq.rid)
             if op.type != "PUBLISH" and op.pkt.get("dup"):
                 L.violate("C08", "R3", "first-%s-dup" % op.type, "first transmission of %s id %r carries DUP" % (op.type, rq.msgId))
         # R5 (scheduled) for every retry timer armed now
